@@ -12,6 +12,7 @@ answer with unknown-identifier errors (`NoFabricate`); without it the renaming c
 (`C14_rename_unrestricted_false`, proved). Proofs: Proofs/Iterators, IterClean, IterEval, IterRename.
 -/
 import EvalexprVerif.Proofs.IteratorsSeq
+import EvalexprVerif.Proofs.IteratorsSeqEval
 import EvalexprVerif.Proofs.Iterators
 import EvalexprVerif.Proofs.AgreeIter
 
@@ -63,6 +64,22 @@ theorem C14_rename (e : Expr) (r : Str → Str) (hinj : Function.Injective r) (h
     out'.1 = renameRes r out.1 ∧ out'.2.log = out.2.log ∧
       (∃ h₁, out.2.ctx = .hashMap h₁ ∧ out'.2.ctx = .hashMap (renameVars r h₁)) :=
   Evalexpr.Spec.C14_rename e r hinj h log hnf
+
+/-- the same three facts over the whole domain of C05 (any sequence level) -/
+theorem C14_unknown_var_level (l : Level) (s : St) (x : Str) (hnf : NoFabricate s.ctx)
+    (h : ((levelTree l).evalMut s).1 = .error (.variableIdentifierNotFound x)) :
+    x ∈ (levelTree l).iterIdents .variable := Evalexpr.Spec.C14_unknown_var_level l s x hnf h
+theorem C14_unknown_fn_level (l : Level) (s : St) (f : Str) (hnf : NoFabricate s.ctx)
+    (h : ((levelTree l).evalMut s).1 = .error (.functionIdentifierNotFound f)) :
+    f ∈ (levelTree l).iterIdents .function := Evalexpr.Spec.C14_unknown_fn_level l s f hnf h
+theorem C14_rename_level (l : Level) (r : Str → Str) (hinj : Function.Injective r) (h : HashMapCtx)
+    (log : List (Str × Value)) (hnf : NoFabricate (.hashMap h)) :
+    let t : Node := levelTree l
+    let out := t.evalMut ⟨.hashMap h, log⟩
+    let out' := (t.renameDesc .variable r).evalMut ⟨.hashMap (renameVars r h), log⟩
+    out'.1 = renameRes r out.1 ∧ out'.2.log = out.2.log ∧
+      (∃ h₁, out.2.ctx = .hashMap h₁ ∧ out'.2.ctx = .hashMap (renameVars r h₁)) :=
+  Evalexpr.Spec.C14_rename_level l r hinj h log hnf
 
 /-- `d = a + f(b + c)`: write d, read a, function f, read b, read c -/
 example : occ (.assign .assign ['d'] (.bin .add (.var ['a']) (.call ['f'] (.paren (.bin .add (.var ['b']) (.var ['c']))))))
